@@ -11,13 +11,17 @@
 (*   HsCred   the credential check and its verdict: RecordFailure's `mu` section (append,       *)
 (*            TotalCount++, prune the window, decide) or RecordSuccess (delete the record).      *)
 (*   HsBan    RecordFailure's second critical section: banIP under `banMu` (the lock is          *)
-(*            released in between - two sections, as in the code).                               *)
+(*            released in between - two sections, as in the code).  As the code stands a         *)
+(*            temporary ban decided earlier overwrites a permanent one recorded meanwhile         *)
+(*            (deviation tempOverPerm).                                                           *)
 (*   Query    IsAllowed + IsBanned called directly (pure observation; may spawn the same         *)
 (*            asynchronous removals).                                                            *)
 (*   AsyncUnban / AsyncUnbl   the bodies of the spawned `go UnbanIP` / `go RemoveFromBlacklist`  *)
 (*            - independent processes that run at any later time.  As the code stands they        *)
 (*            delete WHATEVER entry exists when they finally run (deviations unbanLive/unblLive). *)
 (*   CleanF / CleanB / CleanL   cleanup(): failure records, expired bans; IPManager.cleanup().    *)
+(*   Clean    one whole cleanup() run (CleanF then CleanB back to back): what a sequential        *)
+(*            driver can call; the exhaustive configurations use the two halves separately.       *)
 (*   MUnban / MUnbl / Blk / BlkP / Wl / UnWl   operator actions (legitimate, not violations).     *)
 (*   Tick     time passes.                                                                        *)
 (*                                                                                            *)
@@ -40,8 +44,12 @@
 (*   blob[ip]  the operator's latest blacklist order                                              *)
 (*   adm[ip]   clock values of admitted anonymous registrations                                   *)
 (* Violations are accumulated in `viol`, deviations of the code in `dev`; the as-is               *)
-(* configurations check "violation => a listed deviation happened", the repaired ones             *)
-(* (Fixed # {}) check viol = {} outright.                                                        *)
+(* configurations (Fixed = {}) check "violation => a listed deviation happened", the repaired     *)
+(* design (Fixed = {"unban", "unbl", "order"}) checks viol = {} and dev = {} outright:            *)
+(*   "unban"  the spawned unban re-checks under the lock and removes only an expired entry        *)
+(*   "unbl"   the same for the spawned blacklist removal                                          *)
+(*   "order"  banIP keeps an existing permanent ban when asked to record a temporary one          *)
+(* BruteForce_asis_strict.cfg (expected to fail) makes TLC exhibit the lifted ban.                *)
 EXTENDS Naturals, Sequences, FiniteSets, TLC, Json
 
 CONSTANTS IPs,        \* addresses (their state is disjoint in the code: separate map entries)
